@@ -2,3 +2,44 @@
 // SPDX-License-Identifier: Apache-2.0
 
 //! verification hook drivers: amplification
+//!
+//! Constructors for a `Path` as the path manager creates it for a new, unvalidated peer
+//! address (connection limits at their defaults).
+
+use super::common::{VerifClient, VerifServer};
+use crate::path::Path;
+use core::time::Duration;
+use s2n_quic_core::{connection, path::mtu, recovery::RttEstimator};
+
+pub type ServerPath = Path<VerifServer>;
+pub type ClientPath = Path<VerifClient>;
+
+pub fn server_path() -> ServerPath {
+    let limits = connection::limits::Limits::default();
+    Path::new(
+        Default::default(),
+        connection::PeerId::try_from_bytes(&[]).unwrap(),
+        connection::LocalId::TEST_ID,
+        RttEstimator::new(Duration::from_millis(30)),
+        Default::default(),
+        true,
+        mtu::Config::default(),
+        limits.anti_amplification_multiplier(),
+        0,
+    )
+}
+
+pub fn client_path() -> ClientPath {
+    let limits = connection::limits::Limits::default();
+    Path::new(
+        Default::default(),
+        connection::PeerId::try_from_bytes(&[]).unwrap(),
+        connection::LocalId::TEST_ID,
+        RttEstimator::new(Duration::from_millis(30)),
+        Default::default(),
+        false,
+        mtu::Config::default(),
+        limits.anti_amplification_multiplier(),
+        0,
+    )
+}
